@@ -43,7 +43,11 @@ func (f *Isqrt) Call(s *slip.Scope, args slip.List, depth int) (result slip.Obje
 	slip.CheckArgCount(s, depth, f, args, 1, 1)
 	switch ta := args[0].(type) {
 	case *slip.Bignum:
-		result = (*slip.Bignum)((*big.Int)(ta).Sqrt((*big.Int)(ta)))
+		if root := new(big.Int).Sqrt((*big.Int)(ta)); root.IsInt64() {
+			result = slip.Fixnum(root.Int64())
+		} else {
+			result = (*slip.Bignum)(root)
+		}
 	case *slip.LongFloat:
 		var z big.Int
 		bi, _ := (*big.Float)(ta).Sqrt((*big.Float)(ta)).Int(&z)
